@@ -277,6 +277,9 @@ def gen_field_spec(rnd, solve_time, field_units, kinds=("zero", "const", "ramp",
         return {"kind": "loop", "I": r3(I_A * 1e6 * CUR_FACTOR[cur_units] * rnd.choice([1, -1])), "R": R, "c": [rnd.choice([0.0, 0.5, -1.0]), rnd.choice([0.0, 0.3]), rnd.choice([0.5, 1.0, 2.0])]}
     if kind == "zero":
         return {"kind": "zero"}
+    if kind == "wave":
+        # a travelling-wave potential: an array-valued, time- and position-dependent leaf Parameter
+        return {"kind": "wave", "B": B, "kx": rnd.choice([0.3, 0.7, 1.3]), "ky": rnd.choice([0.2, 0.5, 1.1]), "w": r3(rnd.choice([0.5, 1.5, 3.0]) / solve_time)}
     if kind == "const":
         k2 = rnd.choice(["const", "const_param", "plain"])
         if k2 == "plain":
@@ -362,7 +365,7 @@ def gen_physics(rnd, **p):
     currents = None
     if names and rnd.random() < p.get("p_currents", 0.85):
         currents = gen_current_spec(rnd, names, solve_time, cu, dynamic=p.get("dyn_currents"))
-    field = gen_field_spec(rnd, solve_time, fu, kinds=p.get("field_kinds", ("zero", "const", "ramp", "pw", "sin", "loop")), xi_um=xi_um, cur_units=cu)
+    field = gen_field_spec(rnd, solve_time, fu, kinds=p.get("field_kinds", ("zero", "const", "ramp", "pw", "sin", "loop", "wave")), xi_um=xi_um, cur_units=cu)
     eps = gen_epsilon_spec(rnd, kinds=p.get("eps_kinds", ("none", "none", "none", "const", "spatial", "scalar_spatial", "timedep")))
     faults = []
     if rnd.random() < p.get("refuse", 0.0) and adaptive:
